@@ -6,6 +6,10 @@ KeysFed1 == {<<"x">>, <<"y">>}
 \* two key columns: the order of resort() is by the first column, then the second
 Keys2 == {<<"x", "2">>, <<"x", "1">>, <<"a", "2">>}
 Order2 == << <<"a", "2">>, <<"x", "1">>, <<"x", "2">> >>
+\* two keys whose values read the same when written one after the other: they are different keys
+Keys3 == {<<"x1", "1">>, <<"x", "11">>, <<"a", "2">>}
+Order3 == << <<"a", "2">>, <<"x", "11">>, <<"x1", "1">> >>
+KeysFed3 == {<<"x1", "1">>, <<"a", "2">>}
 TgtsDef == {"P", "Q"}
 \* only keys of FedKeys are fed (the others are looked up and must be reported missing)
 CONSTANT FedKeys
